@@ -48,9 +48,12 @@ def deps : DepTable := [
      "Beam.models.set"]),
   ("cache:BeamMaterial",
     ["Beam.models.set", "beam.ModelManager.set", "beam.ModelManager.add", "beam.ModelManager.clear",
-     "Beam.integrator.set", "Beam.atomic_data.set", "Beam.plasma.set"]),
-  ("cache:Models(BeamCXLine)", beamModelDeps),
-  ("cache:Models(BeamEmissionLine)", beamModelDeps),
+     "Beam.integrator.set", "Beam.atomic_data.set", "Beam.plasma.set",
+     -- round 6: `_configure_geometry` tests `self._attenuator` before it builds the material (found by Gen/CacheReads)
+     "Beam.attenuator.set"]),
+  -- round 6: the public `line` setters of the two beam models (read by `_populate_cache`; found by Gen/CacheReads)
+  ("cache:Models(BeamCXLine)", "BeamCXLine.line.set" :: beamModelDeps),
+  ("cache:Models(BeamEmissionLine)", "BeamEmissionLine.line.set" :: beamModelDeps),
   ("cache:LaserGeometry", "Laser.laser_profile.set" :: profileGeometrySetters),
   ("cache:LaserMaterial",
     ["Laser.models.set", "Laser.importance.set", "Laser.plasma.set", "Laser.laser_spectrum.set",
